@@ -103,7 +103,7 @@ def sc_single(rng, tier, out):
 
 def sc_array(rng, tier, out):
     """allocate_unique<T[]>(n): n = 0..16, throw at every element"""
-    ns = list(range(0, 17)) if tier != "quick" else [0, 1, 2, 3, 5, 8, 16]
+    ns = list(range(0, 17)) if tier != "quick" else [0, 1, 2, 3, 4, 5, 7, 8, 12, 15, 16]
     for i, n in enumerate(ns):
         ets = ETS if tier != "quick" else [ETS[i % len(ETS)], ETS[(i + 3) % len(ETS)]]
         for et in ets:
@@ -123,7 +123,7 @@ def layouts(tier, rng):
     """member layouts of the joint test object: (a, b, c, vres, nv)"""
     L = []
     for f in MEMBER_FORMS:
-        for n in ([0, 1, 2, 4] if tier == "quick" else [0, 1, 2, 3, 5, 8, 16]):
+        for n in ([0, 1, 2, 3, 5] if tier == "quick" else [0, 1, 2, 3, 4, 5, 8, 11, 16]):
             L.append(((f, n), (F_ABSENT, 0), (F_ABSENT, 0), -1, 0))
     L.append(((F_SIZE, 2), (F_VALUE, 3), (F_ABSENT, 0), -1, 0))
     L.append(((F_RANGE, 2), (F_ILIST, 1), (F_SIZE, 2), -1, 0))
@@ -175,8 +175,8 @@ def sc_joint_create(rng, tier, out):
     for i, (a, b, c, vres, nv) in enumerate(layouts(tier, rng)):
         nv_eff = nv if vres >= nv else 0
         total = joint_total(a, b, c, nv_eff)
-        ets = ETS if tier != "quick" else [ETS[i % len(ETS)]]
-        for et in ets:
+        ets = ETS if tier != "quick" else [ETS[i % len(ETS)], ETS[(i + 1 + i // len(ETS)) % len(ETS)]]
+        for et in dict.fromkeys(ets):
             alloc = ALLOCS[(i + ETS.index(et)) % 3] if total * ELEMS[et][0] < 300 else "leaf"
             skew = rng.choice(["0", "1"])
             # creation: every k, each followed by a plain request; big enough additional size
@@ -216,10 +216,10 @@ def ja_skipped(form, n, k):
 def sc_joint_array(rng, tier, out):
     """every joint_array constructor form as a stand-alone array on an existing joint object, n = 0..16,
     throw at every element"""
-    ns = list(range(0, 17)) if tier != "quick" else [0, 1, 2, 3, 6, 16]
+    ns = list(range(0, 17)) if tier != "quick" else [0, 1, 2, 3, 4, 6, 9, 16]
     for form in (F_SIZE, F_VALUE, F_ILIST, F_RANGE, F_COPY, F_MOVE):
         for i, n in enumerate(ns):
-            ets = ETS if tier != "quick" else [ETS[(i + form) % len(ETS)]]
+            ets = ETS if tier != "quick" else [ETS[(i + form) % len(ETS)], ETS[(i + form + 2) % len(ETS)]]
             for et in ets:
                 alloc = ALLOCS[(i + form + ETS.index(et)) % 3] if tier == "quick" else rng.choice(ALLOCS)
                 total = 2 * n if form == F_ILIST else n
@@ -256,7 +256,12 @@ def sc_fit(rng, tier, out):
            ((F_ILIST, 2), (F_ABSENT, 0), (F_SIZE, 0), 3, 1),
            ((F_SIZE, 0), (F_SIZE, 0), (F_SIZE, 0), -1, 0),
            ((F_ABSENT, 0), (F_VALUE, 7), (F_SIZE, 1), 1, 1),
-           ((F_SIZE, 16), (F_SIZE, 1), (F_SIZE, 16), -1, 0)]
+           ((F_SIZE, 16), (F_SIZE, 1), (F_SIZE, 16), -1, 0),
+           # the iterator-range constructor takes its memory element by element (joint_stack::bump): make it
+           # the member that runs out
+           ((F_RANGE, 5), (F_ABSENT, 0), (F_ABSENT, 0), -1, 0),
+           ((F_SIZE, 1), (F_SIZE, 1), (F_RANGE, 3), -1, 0),
+           ((F_ABSENT, 0), (F_RANGE, 7), (F_ABSENT, 0), -1, 0)]
     if tier != "quick":
         for _ in range(24):
             lay.append(((rng.choice(MEMBER_FORMS), rng.randint(0, 16)), (rng.choice(MEMBER_FORMS + [F_ABSENT]), rng.randint(0, 9)),
